@@ -186,7 +186,7 @@ func runL3(r *ev.Run) bool {
 		"ecdsa_sig_shapes":   "valid, highS, padR, padS, nopad(negative) R/S, long-form lengths, seqlen+-1, trailing bytes, bad tags, zero-length ints, r=0, s=0, s=n, truncated, >73 bytes, only-hashtype, empty, no-hashtype, two hashtype bytes, wrong key, wrong digest",
 		"hash_types":         hashTypeClasses,
 		"wrappings":          []string{"bare", "p2sh", "p2wsh", "p2sh-p2wsh", "p2pkh", "p2wpkh", "p2sh-p2wpkh", "taproot key path", "tapscript"},
-		"multisig_hashtypes": "2-of-2 and 2-of-3 with every pair of signing keys x per-signature hash types {01,02,03,81,83} squared x bare/P2SH/P2WSH/P2SH-P2WSH (input index 1 of a 2-in 2-out transaction)",
+		"multisig_hashtypes": "2-of-2 and 2-of-3 with every pair of signing keys x per-signature hash types {01,02,03,81,83} squared x bare/P2SH/P2WSH/P2SH-P2WSH (input index 1 of a 2-in 2-out transaction); 2-of-3 with an unparseable key at each position x the same hash-type square",
 		"multisig":           "m-of-n for n<=3 with every per-slot signature choice x per-key shape (one key varied at a time) x dummy {empty,00,01}; n=20/21",
 		"flag_sets":          len(allFlagSets),
 		"tx":                 "2 inputs (index 1 tested), 2 outputs (and 1 output for SIGHASH_SINGLE out-of-range), version 2",
@@ -617,6 +617,37 @@ func l3Multisig(c *l3Collector, thorough bool) {
 							c.add("L3/multisig-hashtypes/"+wk.name, fmt.Sprintf("2-of-%d sigs by keys %v hash types [%02x %02x]", n, pair, ha, hb),
 								env.spend(pk, sig, wit), allFlagSets)
 						}
+					}
+				}
+			}
+		}
+	}
+	// the same with an unparseable public key at each of the three positions of a
+	// 2-of-3: attempts that bail out on the key (no STRICTENC) lie between
+	// attempts that use different hash types
+	{
+		mixed := []byte{0x01, 0x02, 0x03, 0x81, 0x83}
+		junk := append([]byte{0x05}, keys[2].comp[1:]...)
+		for _, wk := range []wrapKind{wkBare, wkP2SH, wkP2WSH} {
+			for pos := 0; pos < 3; pos++ {
+				script := []byte{0x52}
+				real := 0
+				for i := 0; i < 3; i++ {
+					if i == pos {
+						script = append(script, push(junk)...)
+						continue
+					}
+					script = append(script, push(keys[real].comp)...)
+					real++
+				}
+				script = append(script, 0x53, refscript.OP_CHECKMULTISIG)
+				for _, ha := range mixed {
+					for _, hb := range mixed {
+						sa := append(signECDSA(keys[0], env.digest(wk.sv, script, ha)).der(), ha)
+						sb := append(signECDSA(keys[1], env.digest(wk.sv, script, hb)).der(), hb)
+						pk, sig, wit := wrap(wk, script, [][]byte{{}, sa, sb})
+						c.add("L3/multisig-hashtypes/"+wk.name, fmt.Sprintf("2-of-3 with an unparseable key at position %d, hash types [%02x %02x]", pos, ha, hb),
+							env.spend(pk, sig, wit), allFlagSets)
 					}
 				}
 			}
